@@ -1148,35 +1148,8 @@ func checkC16(c *Ctx, p *Prog, r *Result) {
 		c16DoneExcludesMore(p, r, fs.Order)
 	}
 
-	// (f) devmod writer MTU
-	r.rule("C16.devmod-mtu", "the MTU given to Devmod.Write is the same value that the service-info exchange loop receives (the MaxDeviceServiceInfoSize negotiated in message 66/67)")
-	r.floor("C16.devmod-mtu", 1)
-	m := f.matcherFor(root)
-	for _, b := range root.Blocks {
-		for _, in := range b.Instrs {
-			call, ok := in.(ssa.CallInstruction)
-			if !ok || p.calleeOf(call.Common()).Name != "fdo/serviceinfo.Devmod.Write" {
-				continue
-			}
-			mtu := allArgs(call)[3]
-			same := false
-			for _, b2 := range root.Blocks {
-				for _, in2 := range b2.Instrs {
-					c2, ok := in2.(*ssa.Call)
-					if !ok || p.body(c2.Common().StaticCallee()) == nil || !callsNamed(p, p.body(c2.Common().StaticCallee()), "fdo/serviceinfo.ChunkReader.ReadChunk") {
-						continue
-					}
-					for _, a := range c2.Common().Args {
-						if a == mtu {
-							same = true
-						}
-					}
-				}
-			}
-			n, _, src := m.ResultOf(mtu)
-			r.table(p, "C16.devmod-mtu", siteKey(p, call), p.instrPos(call), same && src != nil, "MTU argument is the result of "+n+" and is also handed to the exchange loop")
-		}
-	}
+	// (f) devmod writer budget
+	c16DevmodBudget(p, r, f, root)
 }
 
 func condRoot(v ssa.Value) ssa.Value {
